@@ -355,4 +355,78 @@ def no_stale_lazy_cache(repo: Repo) -> RuleRun:
 
 no_stale_lazy_cache.rule_id = "C18.NO-STALE-CACHE"
 
-RULES = [scan, corner_table, frame_signs, triangle_partition, affine_kinds, stale_alias, no_stale_lazy_cache]
+def orthogonal_frame(repo: Repo) -> RuleRun:
+    """The viewing frame is orthonormal: the 'ceiling' direction handed to the final normalisation has no component along the
+    line of sight. _get_normals is followed statement by statement in a polynomial domain (unit_vector(...) yields a fresh
+    symbolic UNIT vector u, i.e. identities are taken modulo |u| = 1): (ceiling - (ceiling . u) u) . u = 0, whereas a flipped
+    sign of the correction leaves 2 (ceiling . u). The defect is invisible when the ceiling is already perpendicular."""
+    from ..poly import Poly, Rat, Vec, eval_alg, reduce_unit, sym_vec
+
+    r = RuleRun(PROP, "C18.ORTHOGONAL-FRAME", floor=1, what="in _get_normals the corrected ceiling direction is perpendicular to the observer direction (identity modulo unit length)")
+    fn = repo.func("modify.reorient.viewpoint.ViewpointReorienter._get_normals")
+    units = []
+
+    def hook(expr, env):
+        if isinstance(expr, ast.Call) and (attr_chain(expr.func) or "").split(".")[-1] == "unit_vector":
+            v = sym_vec(f"u{len(units)}_")
+            units.append((f"u{len(units)}_", expr))
+            return v
+        if isinstance(expr, ast.Attribute) and attr_chain(expr.value) == fn.params[0]:
+            return env.setdefault(f"self.{expr.attr}", sym_vec(f"self_{expr.attr}_"))
+        return None
+
+    env = {"__hook__": hook, fn.params[1]: sym_vec("center")}
+    checked = 0
+    born_as: dict = {}
+    for st in fn.node.body:
+        if isinstance(st, ast.Assign) and len(st.targets) == 1 and isinstance(st.targets[0], ast.Name):
+            # before a value is normalised for the second time: is it perpendicular to every earlier unit direction it was corrected by?
+            v = st.value
+            if isinstance(v, ast.Call) and (attr_chain(v.func) or "").split(".")[-1] == "unit_vector" and v.args and isinstance(v.args[0], ast.Name) and isinstance(env.get(v.args[0].id), Vec) and st.targets[0].id == v.args[0].id:
+                corrected = env[v.args[0].id]
+                for uname, _ in units:
+                    u = sym_vec(uname)
+                    if uname == born_as.get(v.args[0].id):
+                        continue  # the direction it started as: not supposed to be perpendicular to itself
+                    if any(uname in repr(c.num) for c in corrected.c) and not all(repr(c.num) == repr(x.num) for c, x in zip(corrected.c, u.c)):
+                        orth = corrected.dot(u)
+                        num = orth.num
+                        for un, _ in units:
+                            num = reduce_unit(num, un)
+                        if any(un in repr(num) for un, _ in units) or not num.terms:
+                            checked += 1
+                            r.check(
+                                not num.terms,
+                                fn,
+                                f"'{v.args[0].id}' is perpendicular to the observer direction before it is normalised",
+                                f"_get_normals: the corrected '{v.args[0].id}' keeps the component {num} along the line of sight (it should be 0 for unit directions): the correction has the wrong sign / factor, so "
+                                "'top' and 'bottom' lean towards the observer whenever the ceiling point is not already perpendicular to the line of sight",
+                                st,
+                                key="ceiling-perpendicular",
+                            )
+            try:
+                n_before = len(units)
+                env[st.targets[0].id] = eval_alg(st.value, env)
+                if len(units) == n_before + 1 and isinstance(v, ast.Call) and (attr_chain(v.func) or "").split(".")[-1] == "unit_vector":
+                    born_as[st.targets[0].id] = units[-1][0]
+            except AnalysisError:
+                env.pop(st.targets[0].id, None)
+        elif isinstance(st, ast.AugAssign) and isinstance(st.target, ast.Name) and st.target.id in env:
+            try:
+                rhs = eval_alg(st.value, env)
+                cur = env[st.target.id]
+                if isinstance(st.op, ast.Sub):
+                    env[st.target.id] = cur - rhs
+                elif isinstance(st.op, ast.Add):
+                    env[st.target.id] = cur + rhs
+                else:
+                    env.pop(st.target.id, None)
+            except AnalysisError:
+                env.pop(st.target.id, None)
+    r.require(checked >= 1, "_get_normals: the orthogonalisation step (a direction corrected by its projection on the observer direction, then normalised again) is not recognised")
+    return r
+
+
+orthogonal_frame.rule_id = "C18.ORTHOGONAL-FRAME"
+
+RULES = [scan, corner_table, frame_signs, triangle_partition, affine_kinds, stale_alias, no_stale_lazy_cache, orthogonal_frame]
